@@ -85,7 +85,7 @@ def main():
         sh(f"git -C /repo archive HEAD src | tar -x -C {scratch}")
         rc, out = sh(f"patch -p1 -s < {src}/patch.diff", cwd=scratch)
         assert rc == 0, f"patch does not apply to the scratch copy: {out}"
-        cenv = {"PYTHONPATH": "/verif", "VERIF_REPO_SRC": f"{scratch}/src"}
+        cenv = {"PYTHONPATH": "/verif", "VERIF_REPO_SRC": f"{scratch}/src", "VERIF_EVIDENCE_DIR": f"{scratch}/evidence", "VERIF_REPLAY_DIR": f"{scratch}/replays"}
     try:
         for c in checks:
             t0 = time.time()
